@@ -22,6 +22,14 @@ SCHEMA = '''<xs:schema xmlns:xs="http://www.w3.org/2001/XMLSchema" elementFormDe
     <xs:element name="val" type="Val" minOccurs="0" maxOccurs="unbounded"/>
     <xs:element name="bitem" type="Item" block="extension" minOccurs="0" maxOccurs="unbounded"/>
     <xs:element ref="sh" minOccurs="0" maxOccurs="unbounded"/>
+    <xs:element name="s1" minOccurs="0">
+     <xs:complexType><xs:sequence><xs:element ref="gl" maxOccurs="unbounded"/></xs:sequence></xs:complexType>
+     <xs:unique name="US1"><xs:selector xpath=".//sub"/><xs:field xpath="@n"/></xs:unique>
+    </xs:element>
+    <xs:element name="s2" minOccurs="0">
+     <xs:complexType><xs:sequence><xs:element ref="gl" maxOccurs="unbounded"/></xs:sequence></xs:complexType>
+     <xs:unique name="US2"><xs:selector xpath=".//sub"/><xs:field xpath="@n"/></xs:unique>
+    </xs:element>
     %(avelem)s
     <xs:any namespace="##other" processContents="lax" minOccurs="0" maxOccurs="unbounded"/>
    </xs:sequence>
@@ -63,6 +71,7 @@ SCHEMA = '''<xs:schema xmlns:xs="http://www.w3.org/2001/XMLSchema" elementFormDe
   </xs:complexContent>
  </xs:complexType>
  <xs:simpleType name="Val"><xs:restriction base="xs:integer"><xs:maxInclusive value="10"/></xs:restriction></xs:simpleType>
+ <xs:element name="gl" type="Item"/>
  <xs:element name="sh" type="xs:string"/>
  <xs:element name="sm" type="xs:string" substitutionGroup="sh"/>
  %(avtype)s
@@ -96,6 +105,10 @@ DOCS = {
     'blocked': '<root %s><item k="1"/><bitem k="2" xsi:type="ItemExt"><sub n="1"/></bitem></root>' % XSI,
     'tok-type': '<root %s><item k="1" xsi:type="ItemTok" code="a  b"/><item k="2" code="c"/></root>' % XSI,
     'codes': '<root><item k="1" code="a  b"/><item k="2" code="a b"/></root>',
+    'g1-ext': '<root %s><item k="1"/><s1><gl k="1" xsi:type="ItemExt"><sub n="1"/><sub n="2"/></gl></s1></root>' % XSI,
+    'g1-dup': '<root %s><item k="1"/><s1><gl k="1" xsi:type="ItemExt"><sub n="1"/><sub n="01"/></gl></s1></root>' % XSI,
+    'g2-dup': '<root %s><item k="1"/><s2><gl k="1" xsi:type="ItemExt"><sub n="1"/><sub n="01"/></gl></s2></root>' % XSI,
+    'xlink-type': ('<root %s><item k="1"/><x:foo xmlns:x="http://www.w3.org/1999/xlink" xsi:type="x:typeType">simple</x:foo></root>' % XSI),
     'subst': '<root><item k="1"/><sh>x</sh><sm>y</sm></root>',
     'assert-lo': '<root><item k="1"/><av>5</av></root>',
     'assert-hi': '<root><item k="1"/><av>50</av></root>',
